@@ -145,5 +145,10 @@ func RunC01(tier string) int {
 	})
 	run.Assume("generated commands are deterministic functions of declared inputs and dependency outputs (by construction)")
 	run.Assume("the reference bytes come from vctl's pure Produce function, which is also what the commands execute")
+	// dependency outputs whose contents do not say which output they are (they exchange
+	// contents, the multiset stays the same): see outperm.go
+	if report.Part("outperm") {
+		OutputPermutationPart(run, st, tierN(tier, 16, 200))
+	}
 	return run.Finish()
 }
